@@ -195,6 +195,10 @@ func c15Cases(seed int64, batch, perBatch int) []C15Case {
 				p := BlockPayload(cg.next(1)[0], c, []*wire.MsgTx{MkTx(rng, 5)})
 				out = append(out, c15(fmt.Sprintf("block-tx-count/%d", c), stage(), Frame("block", p)))
 			}
+		case k < 18 && rng.Intn(3) == 0: // a peer that only sends: pings are answered at every stage, nobody reads the pongs
+			n := 400000 + rng.Intn(100000) // ~13-16 MB of replies: more than the loopback socket buffers plus the 1000-message queue hold
+			one := Frame("ping", PingPayload(rng.Uint64()))
+			out = append(out, C15Case{Class: "ping-flood-peer-not-reading", Stage: stage(), Bytes: bytes.Repeat(one, n)})
 		case k < 18: // floods that fill the handshake channel
 			n := []int{11, 12, 30}[rng.Intn(3)]
 			cmd := []string{"verack", "version"}[rng.Intn(2)]
@@ -360,6 +364,26 @@ func runC15Case(ctx context.Context, c C15Case, canary *Session) string {
 				return "inconclusive:request-block"
 			}
 		}
+	}
+	if c.Class == "ping-flood-peer-not-reading" {
+		// the node's replies pile up in the socket buffers and then in its outgoing queue; our own
+		// writes stall once the node stops reading, so send in the background, then hang up
+		s.Peer.PauseReading()
+		sent := make(chan struct{})
+		go func() { s.Peer.SendRaw(c.Bytes); close(sent) }()
+		select {
+		case <-sent:
+		case <-time.After(8 * time.Second):
+		}
+		s.Peer.CloseConn()
+		if !s.WaitRunReturn(30 * time.Second) {
+			st := goroutineStateOf("bitcoin_reader")
+			stopped = true
+			go s.Stop(5 * time.Second)
+			return "violation:run-does-not-return-after-close/" + st + ":Run still running 30 s after a peer that never read its replies closed the connection"
+		}
+		stopped = true
+		return "ok"
 	}
 	s.Peer.SendRaw(c.Bytes)
 	// barrier: a ping is either answered (still in sync), or the node hangs up, or it keeps
